@@ -36,6 +36,11 @@ def cases(tier):
         for s in SS:
             for x in itertools.product(XS, repeat=n):
                 yield dict(kind="csb", n=n, s=s, x=list(x))
+    if tier == "quick":
+        # a slice of the n = 4 space (the full n = 4 product is in the thorough tier)
+        for x in ([0.0, 1.0, 3.0, 1.0], [1.0, 1.0, 1.0, 1.0], [10.0, 0.0, 3.0, 1.0], [0.0, 0.0, 0.0, 1.0]):
+            for s in (1.0, 5.0):
+                yield dict(kind="csb", n=4, s=s, x=x)
     if tier == "thorough":
         for n in range(5, 11):
             for s in (0.0, 1.0, 5.0, float(n)):
